@@ -169,6 +169,9 @@ type Item struct {
 	Drop    int     `json:"drop,omitempty"`
 	RawFmt  string  `json:"rawfmt,omitempty"`
 	WantErr string  `json:"wanterr,omitempty"` // "too-few-args" | "unknown-conv" | "incomplete"
+	// Seg: the conversions are separated by the literal "\x04" (and nothing else), so that a
+	// call with a don't-care conversion can still be compared conversion by conversion.
+	Seg bool `json:"seg,omitempty"`
 }
 
 func (it Item) Format() string {
